@@ -262,6 +262,173 @@ fn umad_jobs(seed: u64, jobs: &mut Vec<Job>) {
     }
 }
 
+
+/// Independence of per-gene decisions at a distance: for lag d the disjoint position pairs
+/// (j, j + d), j < min(d, len - d), agree (both events or both non-events) with probability
+/// p^2 + (1-p)^2 when every gene is decided independently with probability p; per-position
+/// rates are kept as well.  A decision word that is reused, refilled late or cycled shows up
+/// at the lag of its period.
+pub struct LagAcc {
+    len: usize,
+    lags: Vec<usize>,
+    agree: Vec<u64>,
+    pairs: Vec<u64>,
+    at: Vec<u64>,
+    rows: u64,
+}
+
+const LAGS: [usize; 27] = [1, 2, 3, 4, 5, 7, 8, 9, 15, 16, 17, 24, 31, 32, 33, 48, 63, 64, 65, 96, 127, 128, 129, 192, 255, 256, 257];
+
+impl LagAcc {
+    #[must_use]
+    pub fn new(len: usize) -> Self {
+        let lags: Vec<usize> = LAGS.iter().copied().filter(|d| *d < len).collect();
+        Self { len, agree: vec![0; lags.len()], pairs: vec![0; lags.len()], lags, at: vec![0; len], rows: 0 }
+    }
+    pub fn add(&mut self, events: &[bool]) {
+        self.rows += 1;
+        for (i, e) in events.iter().enumerate().take(self.len) {
+            self.at[i] += u64::from(*e);
+        }
+        for (k, &d) in self.lags.iter().enumerate() {
+            let m = d.min(self.len - d);
+            for j in 0..m {
+                self.agree[k] += u64::from(events[j] == events[j + d]);
+            }
+            self.pairs[k] += m as u64;
+        }
+    }
+    #[must_use]
+    pub fn stats(&self, sig: &str, label: &str, p: f64) -> Vec<Stat> {
+        let q = p * p + (1.0 - p) * (1.0 - p);
+        let mut v: Vec<Stat> = self
+            .lags
+            .iter()
+            .enumerate()
+            .map(|(k, d)| Stat::new(format!("{sig}/decisions-not-independent"), format!("{label}: positions {d} apart decided alike"), self.agree[k], self.pairs[k], q))
+            .collect();
+        for (i, k) in self.at.iter().enumerate() {
+            v.push(Stat::new(format!("{sig}/rate-by-position"), format!("{label}: event at position {i}"), *k, self.rows, p));
+        }
+        v
+    }
+}
+
+/// Long genomes (beyond any machine-word or byte-counter period) through every per-gene operator.
+fn long_genome_jobs(jobs: &mut Vec<Job>) {
+    for len in [130usize, 600] {
+        for bits in [false, true] {
+            let kind = if bits { "Bitstring" } else { "Vec" };
+            let label = format!("UniformXo on {kind} of {len} (long)");
+            jobs.push(job(label.clone(), move |n, seed| {
+                let rows = (n / len as u64).max(2000);
+                let mut rng = StdRng::seed_from_u64(seed);
+                let mut acc = LagAcc::new(len);
+                for _ in 0..rows {
+                    let child: Vec<bool> = if bits {
+                        UniformXo
+                            .recombine((Bitstring { bits: vec![false; len] }, Bitstring { bits: vec![true; len] }), &mut rng)
+                            .map_err(|e| Fail::new("UniformXo<Bitstring>/error", e.to_string()))?
+                            .bits
+                    } else {
+                        UniformXo.recombine((vec![false; len], vec![true; len]), &mut rng).map_err(|e| Fail::new("UniformXo<Vec>/error", e.to_string()))?
+                    };
+                    if child.len() != len {
+                        return Err(Fail::new(format!("UniformXo<{kind}>/length-changed"), format!("{label}: child has {} genes", child.len())));
+                    }
+                    acc.add(&child);
+                }
+                Ok(acc.stats(&format!("UniformXo<{kind}>"), &label, 0.5))
+            }));
+            for rate in [0.5f32, 0.125] {
+                let label = format!("WithRate({rate}) on {kind} of {len} (long)");
+                jobs.push(job(label.clone(), move |n, seed| {
+                    let rows = (n / len as u64).max(2000);
+                    let mut rng = StdRng::seed_from_u64(seed);
+                    let mut acc = LagAcc::new(len);
+                    let m = WithRate::new(rate);
+                    for _ in 0..rows {
+                        let child: Vec<bool> = if bits {
+                            let Ok(c) = m.mutate(Bitstring { bits: vec![false; len] }, &mut rng);
+                            c.bits
+                        } else {
+                            let Ok(c) = m.mutate(vec![false; len], &mut rng);
+                            c
+                        };
+                        if child.len() != len {
+                            return Err(Fail::new(format!("WithRate<{kind}>/length-changed"), format!("{label}: child has {} genes", child.len())));
+                        }
+                        acc.add(&child);
+                    }
+                    Ok(acc.stats(&format!("WithRate<{kind}>"), &label, f64::from(rate)))
+                }));
+            }
+        }
+        for p in [0.5f64, 0.3] {
+            let label = format!("Bitstring::random_with_probability({len}, {p}) (long)");
+            jobs.push(job(label.clone(), move |n, seed| {
+                let rows = (n / len as u64).max(2000);
+                let mut rng = StdRng::seed_from_u64(seed);
+                let mut acc = LagAcc::new(len);
+                for _ in 0..rows {
+                    let b = if p == 0.5 { Bitstring::random(len, &mut rng) } else { Bitstring::random_with_probability(len, p, &mut rng) };
+                    if b.bits.len() != len {
+                        return Err(Fail::new("Bitstring::random/size", format!("{label}: {} bits", b.bits.len())));
+                    }
+                    acc.add(&b.bits);
+                }
+                Ok(acc.stats("Bitstring::random", &label, p))
+            }));
+        }
+        // UMAD deletions on tagged parents (no additions, so survivors identify themselves)
+        let d = 0.25f64;
+        let label = format!("Umad(0, {d}) on Vector of {len} (long)");
+        jobs.push(job(label.clone(), move |n, seed| {
+            let rows = (n / len as u64).max(2000);
+            let mut rng = StdRng::seed_from_u64(seed);
+            let mut acc = LagAcc::new(len);
+            let u = Umad::new(0.0, d, NewGene);
+            for _ in 0..rows {
+                let Ok(c) = u.mutate(Vector { genes: (0..len as u32).map(Tg::Parent).collect::<Vec<_>>() }, &mut rng);
+                let mut deleted = vec![true; len];
+                for g in &c.genes {
+                    match g {
+                        Tg::Parent(j) => deleted[*j as usize] = false,
+                        Tg::New => return Err(Fail::new("Umad<Vector>/addition-rate", format!("{label}: a gene was added at addition rate 0"))),
+                    }
+                }
+                acc.add(&deleted);
+            }
+            Ok(acc.stats("Umad<Vector>", &label, d))
+        }));
+        // UMAD additions (no deletions): after which parent positions a new gene follows
+        let a = 0.25f64;
+        let label = format!("Umad({a}, 0) on Vector of {len} (long)");
+        jobs.push(job(label.clone(), move |n, seed| {
+            let rows = (n / len as u64).max(2000);
+            let mut rng = StdRng::seed_from_u64(seed);
+            let mut acc = LagAcc::new(len);
+            let u = Umad::new(a, 0.0, NewGene);
+            for _ in 0..rows {
+                let Ok(c) = u.mutate(Vector { genes: (0..len as u32).map(Tg::Parent).collect::<Vec<_>>() }, &mut rng);
+                let mut added = vec![false; len];
+                let mut last: Option<usize> = None;
+                for g in &c.genes {
+                    match g {
+                        Tg::Parent(j) => last = Some(*j as usize),
+                        Tg::New => match last {
+                            Some(j) if !added[j] => added[j] = true,
+                            _ => return Err(Fail::new("Umad<Vector>/structure", format!("{label}: a new gene that does not follow a parent gene of its own"))),
+                        },
+                    }
+                }
+                acc.add(&added);
+            }
+            Ok(acc.stats("Umad<Vector>", &label, a))
+        }));
+    }
+}
+
 fn uniform_xo_jobs(jobs: &mut Vec<Job>) {
     for bits in [false, true] {
         for len in [1usize, 10, 64] {
@@ -472,12 +639,13 @@ fn gene_generator_jobs(jobs: &mut Vec<Job>) {
 
 pub fn run(ctx: &mut Ctx) {
     let trials = ctx.tier.pick(2_000_000u64, 40_000_000);
-    ctx.rule = format!("one job per (operator, configuration): WithRate / WithOneOverLength flips (total, per position, adjacent pairs = p^2) on Vec<bool> and Bitstring over a rate grid incl. generated rates and lengths 1..64; UMAD four-outcome law on a single gene and survivor / new-gene rates on Vector and Plushy genomes; uniform crossover per position; Bitstring::random / random_with_probability per bit; GeneGenerator close probability (default 1/(n+1) and explicit) and instruction frequencies (uniform and skewed) for n in 1..20. {trials} seeded trials per job, each statistic compared with its exact law (p = 0 and p = 1 decided exactly). non-trivial = a (statistic, configuration) pair with 0 < p < 1, counted once");
+    ctx.rule = format!("one job per (operator, configuration): WithRate / WithOneOverLength flips (total, per position, adjacent pairs = p^2) on Vec<bool> and Bitstring over a rate grid incl. generated rates and lengths 1..64; UMAD four-outcome law on a single gene and survivor / new-gene rates on Vector and Plushy genomes; uniform crossover per position; long genomes (130 and 600 genes) through UniformXo, WithRate, Bitstring::random*, and UMAD deletions / additions with per-position rates and the agreement law p^2+(1-p)^2 of disjoint position pairs at lags 1..257 (independence beyond any machine-word or byte-counter period); Bitstring::random / random_with_probability per bit; GeneGenerator close probability (default 1/(n+1) and explicit) and instruction frequencies (uniform and skewed) for n in 1..20. {trials} seeded trials per job, each statistic compared with its exact law (p = 0 and p = 1 decided exactly). non-trivial = a (statistic, configuration) pair with 0 < p < 1, counted once");
     ctx.assumptions.push("not detectable: < vs <= on a continuous draw, f32/f64 rounding of a rate (< 1e-7), rate errors below the stated resolution".into());
     let mut jobs = vec![];
     flip_jobs(ctx.seed, &mut jobs);
     umad_jobs(ctx.seed, &mut jobs);
     uniform_xo_jobs(&mut jobs);
+    long_genome_jobs(&mut jobs);
     bitstring_jobs(ctx.seed, &mut jobs);
     gene_generator_jobs(&mut jobs);
     run_jobs(ctx, "rate_laws", jobs, trials);
